@@ -41,7 +41,7 @@ W = [
      'let m = UniformModel::<u32, 24>::new(10); let mut c = DefaultRangeEncoder::new(); c.encode_symbol(3usize, m).unwrap();',
      'let mut d = c.decoder(); c.encode_symbol(4usize, m).unwrap(); let _ = d.decode_symbol(m);',
      'let mut d = c.decoder(); let _ = d.decode_symbol(m); drop(d); c.encode_symbol(4usize, m).unwrap();'),
-    ('c08_bit_stack_view_exclusive', ['C08'], 'E0499', 'the bit-level stack coder cannot be used while a view is alive',
+    ('c08_bit_stack_view_exclusive', ['C08', 'C16'], 'E0499', 'the bit-level stack coder cannot be used while a view is alive',
      'use constriction::symbol::{DefaultStackCoder, WriteBitStream}; let mut c = DefaultStackCoder::new(); c.write_bit(true).unwrap();',
      'let view = c.get_compressed(); c.write_bit(false).unwrap(); drop(view);',
      'let view = c.get_compressed(); drop(view); c.write_bit(false).unwrap();'),
@@ -74,6 +74,18 @@ W = [
     ('c19_fixed_point_precision_too_large', ['C19'], 'E0080', 'fixed-point table constructor with PRECISION > Probability::BITS does not build',
      '', 'let _m = ContiguousCategoricalEntropyModel::<u16, Vec<u16>, 17>::from_nonzero_fixed_point_probabilities([1u16, 2], true);',
      'let _m = ContiguousCategoricalEntropyModel::<u16, Vec<u16>, 16>::from_nonzero_fixed_point_probabilities([1u16, 2], true);'),
+    ('c16_queue_encoder_cannot_read', ['C16'], 'E0599', 'a queue *encoder* has no read_bit: bits written to a queue can only be read back through a QueueDecoder (FIFO order is fixed by the types)',
+     'use constriction::symbol::{DefaultQueueEncoder, DefaultStackCoder, ReadBitStream, WriteBitStream};',
+     'let mut c = DefaultQueueEncoder::new(); c.write_bit(true).unwrap(); let _ = c.read_bit();',
+     'let mut c = DefaultStackCoder::new(); c.write_bit(true).unwrap(); let _ = c.read_bit();'),
+    ('c16_queue_decoder_cannot_write', ['C16'], 'E0599', 'a queue decoder cannot be written to',
+     'use constriction::symbol::{DefaultQueueEncoder, ReadBitStream, WriteBitStream};',
+     'let mut e = DefaultQueueEncoder::new(); e.write_bit(true).unwrap(); let mut d = e.into_decoder().unwrap_infallible(); let _ = d.write_bit(false);',
+     'let mut e = DefaultQueueEncoder::new(); e.write_bit(true).unwrap(); let mut d = e.into_decoder().unwrap_infallible(); let _ = d.read_bit();'),
+    ('c16_bit_queue_view_exclusive', ['C08', 'C16'], 'E0499', 'the bit-level queue encoder cannot be used while a view is alive',
+     'use constriction::symbol::{DefaultQueueEncoder, WriteBitStream}; let mut c = DefaultQueueEncoder::new(); c.write_bit(true).unwrap();',
+     'let view = c.get_compressed(); c.write_bit(false).unwrap(); drop(view);',
+     'let view = c.get_compressed(); drop(view); c.write_bit(false).unwrap();'),
     ('c19_lazy_precision_too_large', ['C19'], 'E0080', 'lazy categorical model with PRECISION > Probability::BITS does not build',
      '', 'let _m = LazyContiguousCategoricalEntropyModel::<u16, f64, Vec<f64>, 17>::from_floating_point_probabilities_fast(vec![0.5f64, 0.5], None);',
      'let _m = LazyContiguousCategoricalEntropyModel::<u16, f64, Vec<f64>, 16>::from_floating_point_probabilities_fast(vec![0.5f64, 0.5], None);'),
